@@ -8,6 +8,7 @@
 package main
 
 import (
+	"encoding/json"
 	"flag"
 	"fmt"
 	"os"
@@ -45,8 +46,13 @@ func main() {
 	list := flag.Bool("list", false, "list registered properties")
 	dump := flag.Bool("dump", false, "print every obligation")
 	evdir := flag.String("evidence-dir", "", "where to write evidence (default <verif>/evidence)")
+	describe := flag.Bool("describe", false, "print the property table as JSON")
 	flag.Parse()
 
+	if *describe {
+		describeProperties()
+		return
+	}
 	if *list {
 		ids := []string{}
 		for id := range properties {
@@ -153,4 +159,24 @@ func runGuarded(r *Report, what string, f func()) {
 // guard runs one rule and records a panic as an undecided obligation of that rule.
 func guard(r *Report, rule string, f func()) {
 	runGuarded(r, rule, f)
+}
+
+func describeProperties() {
+	type d struct {
+		ID          string   `json:"id"`
+		Explanation string   `json:"explanation"`
+		NotDecided  []string `json:"not_decided"`
+	}
+	var out []d
+	ids := []string{}
+	for id := range properties {
+		ids = append(ids, id)
+	}
+	sort.Strings(ids)
+	for _, id := range ids {
+		p := properties[id]
+		out = append(out, d{p.ID, p.Explanation, p.NotDecided})
+	}
+	b, _ := json.MarshalIndent(out, "", " ")
+	fmt.Println(string(b))
 }
